@@ -16,8 +16,8 @@
 
   The operator translation tables of the last two files are NOT written here: `viaWire`
   consumes `Gen.Selector.clientTable / serverTable / ctorTable`, regenerated from the
-  source on every run. So are the case table of the watch filter closure (`rewrite` consumes
-  `Gen.Selector.rewriteAct`) and which predicate List / WatchAll / the cache list apply
+  source on every run. So are the case table of the watch filter closure and the arguments of its two
+  match bits (`rewrite` consumes `Gen.Selector.rewriteAct`, `updatedOldArg`, `updatedNewArg`) and which predicate List / WatchAll / the cache list apply
   (`Sel.matchesAt` over `Gen.Selector.listPred / watchPred / cachePred`). Core Lean only.
 
   Domain: label keys, label values and term operands are ASCII strings (`asciiStr`).
@@ -295,21 +295,32 @@ def log (stg : List Item) : List Mut → List Ev
     | none => log (applyMut stg m).1 ms
     | some e => e :: log (applyMut stg m).1 ms
 
-/-- the filter closure of `WatchAll` (collection.go:651-683). Its case table is
-    REGENERATED (`Gen.Selector.createdDestroyedByMatch`, `Gen.Selector.rewriteAct`): on the
-    unchanged tree Created/Destroyed pass iff the resource matches, and Updated is rewritten
-    by (old matches, new matches): out→in ⇒ Created, in→out ⇒ Destroyed (carrying the NEW
+/-- the filter closure of `WatchAll` (collection.go:651-683) with the three predicates it evaluates as
+    parameters: `m` on the resource of a Created / Destroyed event, `mo` on the OLD and `mn` on the NEW version
+    of an Updated one. Its case table is REGENERATED (`Gen.Selector.createdDestroyedByMatch`,
+    `Gen.Selector.rewriteAct`): on the unchanged tree Created/Destroyed pass iff the resource matches, and
+    Updated is rewritten by (old matches, new matches): out→in ⇒ Created, in→out ⇒ Destroyed (carrying the NEW
     resource, Old dropped), in→in ⇒ unchanged, out→out ⇒ dropped -/
-def rewrite (m : Item → Bool) : Ev → Option Ev
+def rewriteBy (m mo mn : Item → Bool) : Ev → Option Ev
   | .created r => if Gen.Selector.createdDestroyedByMatch && m r then some (.created r) else none
   | .destroyed r => if Gen.Selector.createdDestroyedByMatch && m r then some (.destroyed r) else none
   | .updated old new =>
-    match Gen.Selector.rewriteAct (m old) (m new) with
+    match Gen.Selector.rewriteAct (mo old) (mn new) with
     | .toDestroyed => some (.destroyed new)
     | .toCreated => some (.created new)
     | .pass => some (.updated old new)
     | .drop => none
     | .unknown => none
+
+/-- a match bit of the Updated branch is the selector applied to the version the source text names
+    (`matches(event.Old)` / `matches(event.Resource)`, REGENERATED: `Gen.Selector.updatedOldArg / updatedNewArg`);
+    computed any other way it is unknown, and an unknown bit never holds -/
+def updPred (have_ want : Gen.UpdArg) (m : Item → Bool) : Item → Bool :=
+  if have_ = want then m else fun _ => false
+
+/-- the filter closure as the current source text has it: all three predicates are the one selector `m` -/
+def rewrite (m : Item → Bool) : Ev → Option Ev :=
+  rewriteBy m (updPred Gen.Selector.updatedOldArg .old m) (updPred Gen.Selector.updatedNewArg .resource m)
 
 /-- what a consumer does with an event: put / remove by ID (the runtime cache does
     exactly this: `CachePut` on Created/Updated, `CacheRemove` on Destroyed) -/
